@@ -235,6 +235,44 @@ static Wire c07(Reader& r) {
             out.push_back(sp->ndata); for (size_t k=0;k<(size_t)sp->ndata;++k) out.push_back(d2w(static_cast<double*>(sp->data)[k]));
             Mat_VarFree(v); Mat_Close(mat);
             loadOutcome(out,K_SPARSE,p.c_str()); return out; },20); }
+    case 13: {  // rtu: fmt obj prev(same kind) -> [save status, load outcome] with the file loaded into an object that already holds prev
+        int fmt=(int)r.n(); Obj o; getObj(r,o); Obj u; getObj(r,u); if (u.kind!=o.kind) throw Reader::Malformed();
+        return in_child([&]{ std::string p = fname("omfile_rtu",fmt); std::remove(p.c_str());
+            Wire out; ll st = guarded_code([&]{ saveObj(o,p.c_str()); }); out.push_back(st); if (st!=0) return out;
+            ll ls = loadObj(u.kind,u,p.c_str()); out.push_back(ls); if (ls==0) putObj(out,u.kind,u); return out; },20); }
+    case 14: {  // matcraft: a MATLAB container written with libmatio directly (possibly inconsistent), then loaded as `kind`
+        int variant=(int)r.n(); int kind=(int)r.n();
+        std::string p = fname("omfile_craft",3); std::remove(p.c_str());
+        mat_t* mat = Mat_CreateVer(p.c_str(),NULL,MAT_FT_MAT73);
+        if (!mat) return Wire{E_OPEN};
+        if (variant==0) {        // symmatrix struct {size, data}: announced order, k values
+            size_t n=r.n(), k=r.n(); std::vector<double> d(k ? k : 1); for (size_t t=0;t<k;++t) d[t]=w2d(r.z());
+            size_t dims[2] = { k,1 }; size_t dims1[2] = { 1,1 }; size_t size[1] = { n };
+            matvar_t* fields[3];
+            fields[0] = Mat_VarCreate("size",MAT_C_UINT32,MAT_T_UINT32,2,dims1,size,0);
+            fields[1] = Mat_VarCreate("data",MAT_C_DOUBLE,MAT_T_DOUBLE,2,dims,d.data(),0);
+            fields[2] = NULL;
+            matvar_t* sv = Mat_VarCreate("symmatrix",MAT_C_STRUCT,MAT_T_STRUCT,2,dims1,fields,0);
+            Mat_VarWrite(mat,sv,MAT_COMPRESSION_ZLIB); Mat_VarFree(sv);
+        } else if (variant==1) { // plain variable: class (0 double, 1 int32), rank, dims, values
+            int cls=(int)r.n(); int rank=(int)r.n(); std::vector<size_t> dims(rank); size_t tot=1; for (int t=0;t<rank;++t) { dims[t]=r.n(); tot*=dims[t]; }
+            size_t nv=r.n(); std::vector<double> d(std::max(nv,tot)+1,0.0); std::vector<int> di(std::max(nv,tot)+1,0);
+            for (size_t t=0;t<nv;++t) { ll w=r.z(); d[t]=w2d(w); di[t]=(int)w; }
+            matvar_t* v = cls==0 ? Mat_VarCreate("linop",MAT_C_DOUBLE,MAT_T_DOUBLE,rank,dims.data(),d.data(),0)
+                                 : Mat_VarCreate("linop",MAT_C_INT32,MAT_T_INT32,rank,dims.data(),di.data(),0);
+            if (v) { Mat_VarWrite(mat,v,MAT_COMPRESSION_ZLIB); Mat_VarFree(v); }
+        } else {                 // sparse: nl nc nzmax nir ir.. njc jc.. ndata values..
+            size_t nl=r.n(), nc=r.n(); size_t nzmax=r.n();
+            size_t nir=r.n(); std::vector<mat_uint32_t> ir(nir+1); for (size_t t=0;t<nir;++t) ir[t]=(mat_uint32_t)r.n();
+            size_t njc=r.n(); std::vector<mat_uint32_t> jc(njc+1); for (size_t t=0;t<njc;++t) jc[t]=(mat_uint32_t)r.n();
+            size_t nd=r.n(); std::vector<double> d(nd+1); for (size_t t=0;t<nd;++t) d[t]=w2d(r.z());
+            size_t dims[2] = { nl,nc };
+            mat_sparse_t sp; sp.nzmax=(mat_uint32_t)nzmax; sp.ir=ir.data(); sp.nir=(mat_uint32_t)nir; sp.jc=jc.data(); sp.njc=(mat_uint32_t)njc; sp.ndata=(mat_uint32_t)nd; sp.data=d.data();
+            matvar_t* v = Mat_VarCreate("matrix",MAT_C_SPARSE,MAT_T_DOUBLE,2,dims,&sp,MAT_F_DONT_COPY_DATA);
+            if (v) { Mat_VarWrite(mat,v,MAT_COMPRESSION_ZLIB); Mat_VarFree(v); }
+        }
+        Mat_Close(mat);
+        return in_child([&]{ Wire out; loadOutcome(out,kind,p.c_str()); return out; },10); }
     case 10: {  // mesh: mfmt nbytes bytes... -> mesh load outcome, in a child process
         int mf=(int)r.n(); std::string p = std::string("omfile_m.")+MSUFFIX[mf]; spit(p.c_str(),r);
         return in_child([&]{ return meshOutcome(p.c_str()); }); }
